@@ -78,6 +78,8 @@ def evaluate(case):
     cls = case["cls"]
     viol = []
     G = []
+    GS = []  # signed gap at t = T/4 and t = T per rung
+    PL = []  # signed plateau error of the ideal reservoir per rung
     delta = 0.0
     outcome = []
     rungs = ladder(case["tier"])
@@ -95,6 +97,7 @@ def evaluate(case):
         if cls == "ideal":
             plateau = 1 - case["p_f"] / case["p_i"]
             err = abs(rf[-1] / plateau - 1)
+            PL.append(float(rf[-1] / plateau - 1))
             if err > GAP_C / nx:
                 viol.append(V("ideal/plateau", f"ideal recovery at T={T} is {rf[-1]:.6g}; plateau 1-p_f/p_i = "
                               f"{plateau:.6g} (relative error {err:.3g} > {GAP_C}/nx)", case=case,
@@ -130,6 +133,20 @@ def evaluate(case):
         if not delta:
             delta = inconsistency(tables.table(case["table"]), p_low, case["p_i"])
         G.append(float(np.max(np.abs(rf - rfd))) / ceiling)
+        i4 = int(np.argmin(np.abs(t - (t[0] + 0.25 * (t[-1] - t[0])))))
+        GS.append((float(rf[i4] - rfd[i4]) / ceiling, float(rf[-1] - rfd[-1]) / ceiling))
+        # absolute anchor: in-place recovery IS 1 - (mass in place) / (initial mass) of the stored field, whatever the
+        # node quadrature (sum, trapezoid: they differ by O(1/nx)); a common factor on both recovery modes cancels in
+        # every comparison above
+        u = np.asarray(res.pseudopressure, dtype=float)
+        _om = np.argsort(np.asarray(tb["m-scaled"]))
+        mass = np.interp(u, np.asarray(tb["m-scaled"])[_om], np.asarray(tb["density"])[_om])
+        own = 1.0 - mass.sum(axis=1) / mass[0].sum()
+        dev = float(np.max(np.abs(own - rfd))) / ceiling
+        if dev > 1.5 / nx:
+            viol.append(V("in-place/is-mass-in-place", f"in-place recovery differs from 1 - mass(t)/mass(0) of the stored field by "
+                          f"{dev:.4g} of the ceiling at nx={nx} (allowed 1.5/nx for the node quadrature)", case=case,
+                          observed=dev, tol=1.5 / nx))
     if cls == "single":
         if delta > 0.05:
             outcome.append("table-inconsistency>5%:gap-not-demanded")
@@ -153,7 +170,23 @@ def evaluate(case):
                               f"(ladder {[round(g, 5) for g in G]}), i.e. it does not shrink to zero "
                               f"(measured <= 0.53 G_last on consistent tables)", case=case, observed=lim,
                               tol=0.6 * G[-1] + DELTA_W * delta + 2e-4))
+            # the SIGNED gap at fixed times extrapolates to zero as well (a flux scale that is 1 % high shrinks the
+            # unsigned maximum on every rung, because the discretisation gap is negative at late time)
+            for which, name in ((0, "t = T/4"), (1, "t = T")):
+                g = [x[which] for x in GS]
+                lim_s = 2 * g[-1] - g[-2]
+                if abs(lim_s) > 0.6 * abs(g[-1]) + DELTA_W * delta + 2e-4:
+                    viol.append(V("mass-balance/signed-limit", f"the signed gap (flux - in-place)/ceiling at {name} is "
+                                  f"{[round(x, 5) for x in g]} along the ladder and extrapolates to {lim_s:.4g}, not to zero",
+                                  case=case, observed=lim_s, tol=0.6 * abs(g[-1]) + DELTA_W * delta + 2e-4))
+                    break
             outcome.append("gap-ladder")
+    if cls == "ideal" and len(PL) >= 2:
+        # the plateau error is first order and must extrapolate to zero (measured +0.745/nx, +0.646/nx, +0.585/nx)
+        lim_p = 2 * PL[-1] - PL[-2]
+        if abs(PL[-1]) > 1.2 / rungs[-1][0] or abs(lim_p) > 0.6 * abs(PL[-1]) + 2e-4 or abs(PL[-1]) > 0.75 * abs(PL[-2]) + 2e-4:
+            viol.append(V("ideal/plateau-limit", f"ideal plateau error along the ladder {[round(x, 5) for x in PL]}: exceeds "
+                          f"1.2/nx, does not shrink by 0.75, or extrapolates to {lim_p:.4g}", case=case, observed=PL))
     nsteps = sum(nt for _, nt in rungs)
     return {"violations": viol, "G": G, "delta": delta, "outcome": outcome or ["ideal-plateau"],
             "evals": len(rungs), "nontrivial": bool(G and G[0] > 1e-6), "states": nsteps}
